@@ -325,10 +325,13 @@ def check_sync(ctx, case, real, model):
             stale = True
         if st["fresh"] and st["file"] != st["db"]:
             deleted = any(e[0] == "delete" for e in case["evs"][:k])
-            ctx.fail("fresh_cache_is_complete", sub, st, m, finding="D61" if deleted else None,
+            cls = "D61" if deleted else ("D62" if case.get("gate") == "rebuild0" else None)   # D62 is fixed: naming it marks a regression
+            ctx.fail("fresh_cache_is_complete", sub, st, m, finding=cls,
                      note="the user's cache file is not older than the database and holds %s, the database %s" % (st["file"], st["db"]))
             break
     ctx.hist("sync scenario: %s" % ("an instance went stale" if stale else "nobody stale"))
+    if case.get("gate"):
+        ctx.hist("sync scenario: another writer inside the rebuilding constructor")
     for e in case["evs"]:
         ctx.hist("sync event %s" % e[0])
     ctx.case(key={"sync": inp}, nontrivial=stale, sample={"input": inp} if ctx.evaluations % 97 == 0 else None)
